@@ -188,6 +188,61 @@ Proof.
 Qed.
 
 
+(* ---------- validity of the pointer returned by a step ---------- *)
+Definition pa_ok (l' : list seg) (off' i so : nat) : Prop :=
+  i < length l' /\ so <= slen (nthseg l' i) /\ pre_len l' i + so = off'.
+
+Lemma ptr_after_valid fn' p i so n rp :
+  WF fn' -> pa_ok (segs fn') (off p + n) i so -> valid fn' (ptr_after (segs fn') p i so n rp).
+Proof.
+  intros [_ Hpos] (Hi & Hso & Hoff). unfold ptr_after.
+  destruct (slen (nthseg (segs fn') i) =? so) eqn:E.
+  - apply Nat.eqb_eq in E. split; cbn [off idx soff].
+    + rewrite pre_len_S by auto. lia.
+    + destruct (Nat.eq_dec (S i) (length (segs fn'))) as [Heq|Hne]; [right; auto|left].
+      split; [lia|]. rewrite Forall_forall in Hpos. apply Hpos. apply nthseg_in. lia.
+  - apply Nat.eqb_neq in E. split; cbn [off idx soff]; [lia|left; split; [auto|lia]].
+Qed.
+
+Lemma pre_len_splice l a b mid k :
+  a <= length l -> k <= length mid ->
+  pre_len (firstn a l ++ mid ++ skipn b l) (a + k) = pre_len l a + pre_len mid k.
+Proof.
+  intros Ha Hk. unfold pre_len.
+  assert (Hl : length (firstn a l) = a) by (rewrite firstn_length; lia).
+  rewrite <- Hl at 1. rewrite firstn_app_2.
+  rewrite firstn_app. replace (k - length mid) with 0 by lia. cbn [firstn]. rewrite app_nil_r.
+  rewrite flat_map_app, app_length. reflexivity.
+Qed.
+
+Lemma nthseg_splice l a b mid k :
+  a <= length l -> k < length mid ->
+  nthseg (firstn a l ++ mid ++ skipn b l) (a + k) = nthseg mid k.
+Proof.
+  intros Ha Hk. unfold nthseg.
+  rewrite app_nth2 by (rewrite firstn_length; lia).
+  rewrite firstn_length. replace (a + k - Nat.min a (length l)) with k by lia.
+  apply app_nth1. exact Hk.
+Qed.
+
+Lemma length_splice (l : list seg) a b (mid : list seg) :
+  a <= length l -> length (firstn a l ++ mid ++ skipn b l) = a + length mid + (length l - b).
+Proof.
+  intros Ha. rewrite !app_length, firstn_length. pose proof (skipn_length b l). lia.
+Qed.
+
+Lemma pre_len_splice0 l a b mid :
+  a <= length l -> pre_len (firstn a l ++ mid ++ skipn b l) a = pre_len l a.
+Proof.
+  intros Ha. pose proof (pre_len_splice l a b mid 0 Ha (Nat.le_0_l _)) as H.
+  rewrite Nat.add_0_r in H. rewrite H. unfold pre_len at 2. cbn [firstn flat_map length]. lia.
+Qed.
+Lemma nthseg_splice0 l a b mid :
+  a <= length l -> 0 < length mid -> nthseg (firstn a l ++ mid ++ skipn b l) a = nthseg mid 0.
+Proof.
+  intros Ha Hm. pose proof (nthseg_splice l a b mid 0 Ha Hm) as H. rewrite Nat.add_0_r in H. exact H.
+Qed.
+
 Section Branches.
 Variable mb : nat.
 Hypothesis mb_pos : 1 <= mb.
@@ -615,4 +670,190 @@ Proof.
         constructor; [|apply Forall_skipn; exact Hpos].
         unfold slen, s'. rewrite sbytes_slice_none. pose proof (skipn_length (length cando1) (sbytes s)). unfold slen in *. lia.
 Qed.
+
+(* ---------- the pointer returned by each branch is valid for the new node ---------- *)
+Definition step_valid (r : fnode * ptr * nat) : Prop := let '(fn', p', _) := r in valid fn' p'.
+
+Lemma set_nth_as_splice l i x : set_nth l i x = firstn i l ++ [x] ++ skipn (S i) l.
+Proof. reflexivity. Qed.
+
+Lemma ws_inplace_valid fn p data :
+  WF fn -> valid fn p -> data <> [] ->
+  idx p < length (segs fn) -> soff p < slen (nthseg (segs fn) (idx p)) ->
+  step_valid (ws_inplace fn p (firstn mb data)).
+Proof.
+  intros Hwf Hv Hd Hi Hso.
+  pose proof (ws_inplace_ok fn p data Hwf Hv Hd Hi Hso) as Hok.
+  destruct Hv as [Hoff _].
+  unfold ws_inplace, step_ok, step_valid in *. cbv zeta in *.
+  destruct Hok as (_ & _ & Hwf' & _).
+  set (s := nthseg (segs fn) (idx p)) in *.
+  set (cando := firstn (slen s - soff p) (firstn mb data)) in *.
+  assert (Hc2 : length cando <= slen s - soff p) by (unfold cando; rewrite firstn_length; lia).
+  set (w := Mem (mem_write (sbytes s) (soff p) cando)) in *.
+  match goal with |- valid ?F (ptr_after ?L _ _ _ _ _) => change L with (segs F) end.
+  apply ptr_after_valid; [exact Hwf'|]. cbn [segs].
+  assert (Hw : slen w = slen s).
+  { unfold w, slen. cbn [sbytes]. apply mem_write_length. unfold slen in *. lia. }
+  split; [rewrite set_nth_length; auto|]. split.
+  - rewrite nth_set_nth by auto. lia.
+  - rewrite set_nth_as_splice. rewrite pre_len_splice0 by lia. lia.
+Qed.
+
+Lemma ws_insert_valid fn p data :
+  WF fn -> valid fn p -> data <> [] ->
+  (idx p = length (segs fn) \/ (idx p < length (segs fn) /\ soff p = 0)) ->
+  step_valid (ws_insert fn p (firstn mb data)).
+Proof.
+  intros Hwf Hv Hd Hcase.
+  assert (Hok : step_ok fn p data (ws_insert fn p (firstn mb data))).
+  { destruct Hcase as [He|[Hl Hs]]; [apply ws_insert_eof_ok|apply ws_insert_mid_ok]; auto. }
+  assert (Hso : soff p = 0).
+  { destruct Hcase as [He|[_ Hs]]; [|exact Hs]. destruct Hv as [_ [[A _]|[_ B]]]; [lia|exact B]. }
+  destruct Hv as [Hoff _].
+  unfold ws_insert, step_ok, step_valid in *.
+  destruct (adjust_cur fn (idx p) (firstn mb data)) as [[cando l1] sz] eqn:EA. cbv zeta in *.
+  destruct Hok as (_ & _ & Hwf' & _).
+  match goal with |- valid ?F (ptr_after ?L _ _ _ _ _) => change L with (segs F) end.
+  apply ptr_after_valid; [exact Hwf'|]. cbn [segs].
+  assert (Hl1 : idx p <= length l1 /\ pre_len l1 (idx p) = pre_len (segs fn) (idx p)).
+  { unfold adjust_cur in EA. destruct (idx p =? length (segs fn)) eqn:E1.
+    - injection EA as _ <- _. apply Nat.eqb_eq in E1. split; [lia|reflexivity].
+    - apply Nat.eqb_neq in E1. assert (idx p < length (segs fn)) by (destruct Hcase as [?|[? _]]; lia).
+      destruct (slen (nthseg (segs fn) (idx p)) <=? length (firstn mb data)).
+      + injection EA as _ <- _. split.
+        * rewrite app_length, firstn_length. lia.
+        * unfold pre_len. rewrite firstn_app_exact by (rewrite firstn_length; lia). reflexivity.
+      + injection EA as _ <- _. split.
+        * rewrite set_nth_length by auto. lia.
+        * unfold pre_len, set_nth. rewrite firstn_app_exact by (rewrite firstn_length; lia). reflexivity. }
+  destruct Hl1 as [Hle Hpre].
+  change (Mem cando :: skipn (idx p) l1) with ([Mem cando] ++ skipn (idx p) l1).
+  split; [rewrite length_splice by auto; cbn [length]; lia|]. split.
+  - rewrite nthseg_splice0 by (cbn [length]; lia).
+    unfold nthseg, slen. cbn [nth sbytes]. lia.
+  - rewrite pre_len_splice0 by lia. rewrite Hpre. lia.
+Qed.
+
+Lemma ws_split_valid fn p data :
+  WF fn -> valid fn p -> data <> [] ->
+  idx p < length (segs fn) -> 0 < soff p -> soff p < slen (nthseg (segs fn) (idx p)) ->
+  step_valid (ws_split fn p (firstn mb data)).
+Proof.
+  intros Hwf Hv Hd Hi Hso0 Hso.
+  pose proof (ws_split_ok fn p data Hwf Hv Hd Hi Hso0 Hso) as Hok.
+  destruct Hv as [Hoff _].
+  unfold ws_split, step_ok, step_valid in *. cbv zeta in *.
+  set (l := segs fn) in *. set (cur := idx p) in *. set (s := nthseg l cur) in *.
+  assert (Hsl : slen (slice s 0 (Some (soff p))) = soff p).
+  { unfold slen. rewrite sbytes_slice_some. cbn [skipn]. rewrite firstn_length. unfold slen in Hso. lia. }
+  destruct (slen s - soff p <=? length (firstn mb data)).
+  - destruct Hok as (_ & _ & Hwf' & _).
+    set (cando := firstn (slen s - soff p) (firstn mb data)) in *.
+    match goal with |- valid ?F (ptr_after ?L _ _ _ _ _) => change L with (segs F) end.
+    apply ptr_after_valid; [exact Hwf'|]. cbn [segs].
+    split; [rewrite length_splice by lia; cbn [length]; lia|]. split.
+    + replace (S cur) with (cur + 1) by lia. rewrite nthseg_splice by (cbn [length]; lia).
+      unfold nthseg, slen. cbn [nth sbytes]. lia.
+    + replace (S cur) with (cur + 1) by lia. rewrite pre_len_splice by (cbn [length]; lia).
+      unfold pre_len at 2. cbn [firstn flat_map]. rewrite app_nil_r. fold (slen (slice s 0 (Some (soff p)))).
+      rewrite Hsl. lia.
+  - destruct Hok as (_ & _ & Hwf' & _).
+    set (cando := firstn mb data) in *.
+    match goal with |- valid ?F (ptr_after ?L _ _ _ _ _) => change L with (segs F) end.
+    apply ptr_after_valid; [exact Hwf'|]. cbn [segs].
+    split; [rewrite length_splice by lia; cbn [length]; lia|]. split.
+    + replace (S cur) with (cur + 1) by lia. rewrite nthseg_splice by (cbn [length]; lia).
+      unfold nthseg, slen. cbn [nth sbytes]. lia.
+    + replace (S cur) with (cur + 1) by lia. rewrite pre_len_splice by (cbn [length]; lia).
+      unfold pre_len at 2. cbn [firstn flat_map]. rewrite app_nil_r. fold (slen (slice s 0 (Some (soff p)))).
+      rewrite Hsl. lia.
+Qed.
+
+Lemma pre_len_firstn_eq (l1 l : list seg) k n : k <= n -> firstn n l1 = firstn n l -> pre_len l1 k = pre_len l k.
+Proof.
+  intros Hk H. unfold pre_len.
+  replace (firstn k l1) with (firstn k (firstn n l1)) by (rewrite firstn_firstn; f_equal; lia).
+  replace (firstn k l) with (firstn k (firstn n l)) by (rewrite firstn_firstn; f_equal; lia).
+  rewrite H. reflexivity.
+Qed.
+Lemma nthseg_firstn_eq (l1 l : list seg) k n : k < n -> firstn n l1 = firstn n l -> nthseg l1 k = nthseg l k.
+Proof.
+  intros Hk H. unfold nthseg. rewrite <- (nth_firstn_lt l1 n k) by lia. rewrite <- (nth_firstn_lt l n k) by lia.
+  rewrite H. reflexivity.
+Qed.
+
+Lemma ws_grow_prev_valid fn p data prev :
+  WF fn -> valid fn p -> data <> [] ->
+  idx p = S prev -> S prev <= length (segs fn) -> soff p = 0 ->
+  is_mem (nthseg (segs fn) prev) = true -> slen (nthseg (segs fn) prev) < mb ->
+  step_valid (ws_grow_prev mb fn p (firstn mb data)).
+Proof.
+  intros Hwf Hv Hd Hcur Hle Hso Hmem Hroom.
+  pose proof (ws_grow_prev_ok fn p data prev Hwf Hv Hd Hcur Hle Hso Hmem Hroom) as Hok.
+  destruct Hv as [Hoff _].
+  unfold ws_grow_prev, step_ok, step_valid in *. rewrite Hcur in *. cbn [pred] in *.
+  set (l := segs fn) in *. set (ps := nthseg l prev) in *.
+  set (cando1 := firstn (mb - slen ps) (firstn mb data)) in *.
+  destruct (adjust_cur fn (S prev) cando1) as [[cando l1] sz] eqn:EA. cbv zeta in *.
+  destruct Hok as (_ & _ & Hwf' & _).
+  assert (Hprev_lt : prev < length l) by lia.
+  assert (HSp := pre_len_S l prev Hprev_lt). fold ps in HSp.
+  assert (Hl1 : S prev <= length l1 /\ firstn (S prev) l1 = firstn (S prev) l).
+  { remember (S prev) as cur eqn:Ecur.
+    unfold adjust_cur in EA. fold l in EA. destruct (cur =? length l) eqn:E1.
+    - injection EA as _ <- _. apply Nat.eqb_eq in E1. split; [lia|reflexivity].
+    - apply Nat.eqb_neq in E1. assert (cur < length l) by lia.
+      destruct (slen (nthseg l cur) <=? length cando1).
+      + injection EA as _ <- _. split.
+        * rewrite app_length, firstn_length. lia.
+        * apply firstn_app_exact. rewrite firstn_length. lia.
+      + injection EA as _ <- _. split.
+        * rewrite set_nth_length by auto. lia.
+        * unfold set_nth. apply firstn_app_exact. rewrite firstn_length. lia. }
+  destruct Hl1 as [Hle1 Hf1].
+  assert (Hn1 : nthseg l1 prev = ps) by (unfold ps; apply (nthseg_firstn_eq l1 l prev (S prev)); auto).
+  assert (Hp1 : pre_len l1 prev = pre_len l prev) by (apply (pre_len_firstn_eq l1 l prev (S prev)); auto).
+  rewrite Hn1 in *.
+  match goal with |- valid ?F (ptr_after ?L _ _ _ _ _) => change L with (segs F) end.
+  apply ptr_after_valid; [exact Hwf'|]. cbn [segs].
+  split; [rewrite set_nth_length by lia; lia|]. split.
+  - rewrite nth_set_nth by lia. unfold slen. cbn [sbytes]. rewrite app_length. lia.
+  - rewrite set_nth_as_splice. rewrite pre_len_splice0 by lia. rewrite Hp1.
+    rewrite Hoff, Hso, HSp. unfold slen. lia.
+Qed.
+
+(* ---------- the dispatcher: one iteration of the write loop ---------- *)
+Theorem write_step_ok fn p data :
+  WF fn -> valid fn p -> data <> [] ->
+  step_ok fn p data (write_step mb fn p data) /\ step_valid (write_step mb fn p data).
+Proof.
+  intros Hwf Hv Hd. unfold write_step. cbv zeta.
+  assert (Hv' := Hv). destruct Hv' as [Hoff Hcase].
+  unfold cur_writable.
+  destruct Hcase as [[Hi Hso]|[Hi Hso]].
+  - (* ptr inside segment idx p *)
+    assert (E1 : (idx p <? length (segs fn)) = true) by (apply Nat.ltb_lt; auto). rewrite E1.
+    destruct (is_mem (nthseg (segs fn) (idx p))) eqn:Em.
+    + cbn [negb]. rewrite andb_false_r. split; [apply ws_inplace_ok|apply ws_inplace_valid]; auto.
+    + cbn [negb]. rewrite andb_true_r.
+      destruct (0 <? soff p) eqn:E0.
+      * apply Nat.ltb_lt in E0. split; [apply ws_split_ok|apply ws_split_valid]; auto.
+      * apply Nat.ltb_ge in E0. assert (Hs0 : soff p = 0) by lia.
+        destruct (prev_appendable mb (segs fn) (idx p)) eqn:Ep.
+        -- unfold prev_appendable in Ep. destruct (idx p) as [|prev] eqn:Eidx; [discriminate|].
+           apply andb_true_iff in Ep. destruct Ep as [Er Em']. apply Nat.ltb_lt in Er.
+           split; [eapply ws_grow_prev_ok|eapply ws_grow_prev_valid]; eauto; lia.
+        -- split; [apply ws_insert_mid_ok|apply ws_insert_valid]; auto.
+  - (* ptr at EOF *)
+    assert (E1 : (idx p <? length (segs fn)) = false) by (apply Nat.ltb_ge; lia). rewrite E1.
+    rewrite Hso. cbn [Nat.ltb Nat.leb andb].
+    destruct (prev_appendable mb (segs fn) (idx p)) eqn:Ep.
+    + unfold prev_appendable in Ep. destruct (idx p) as [|prev] eqn:Eidx; [discriminate|].
+      apply andb_true_iff in Ep. destruct Ep as [Er Em']. apply Nat.ltb_lt in Er.
+      split; [eapply ws_grow_prev_ok|eapply ws_grow_prev_valid]; eauto; lia.
+    + split; [apply ws_insert_eof_ok|apply ws_insert_valid]; auto.
+Qed.
 End Branches.
+Check write_step_ok.
+Print Assumptions write_step_ok.
